@@ -45,11 +45,8 @@ func (s *snapshot) Get(key []byte, cb func(value []byte) error) error {
 		return err
 	}
 
-	if err := cb(data); err != nil {
-		return err
-	}
-
-	return closer.Close()
+	err = cb(data)
+	return errors.Join(err, closer.Close())
 }
 
 func (s *snapshot) NewIterator(prefix []byte, withUpperBound bool) (db.Iterator, error) {
